@@ -337,10 +337,17 @@ class Column:
                 if self.nullable is not None
                 else ""
             ),
-            default=(" {}".format("DEFAULT " + self.default.get_sql(ctx)) if self.default else ""),
+            default=(" DEFAULT " + self._default_sql(ctx)) if self.default else "",
         )
 
         return column_sql
+
+    def _default_sql(self, ctx: SqlContext) -> str:
+        default_sql = self.default.get_sql(ctx)  # type:ignore[union-attr]
+        literal = isinstance(self.default, (ValueWrapper, Interval)) or default_sql.replace("_", "").isalpha()
+        # a literal or a bare keyword (NULL, CURRENT_TIMESTAMP) stands as it is; an expression is bracketed, as SQLite
+        # and MySQL require (DEFAULT (1+2), DEFAULT (UPPER('x')))
+        return default_sql if literal else "({})".format(default_sql)
 
     def __str__(self) -> str:
         return self.get_sql(DEFAULT_SQL_CONTEXT)
